@@ -292,8 +292,12 @@ def main(argv=None):
         n_new += len(rs_)
         if len(reported) >= chk.MAX_REPORTS or time.time() - t_min0 > chk.MINIMISE_TOTAL_S:
             continue
-        small, tests = minimise(plan, chk.candidates, lambda p: _exec_for_class(chk, p),
-                                vio["class"], budget_s=chk.MINIMISE_S)
+        try:
+            small, tests = minimise(plan, chk.candidates, lambda p: _exec_for_class(chk, p),
+                                    vio["class"], budget_s=chk.MINIMISE_S)
+        except Exception as e:  # noqa: BLE001 - a broken reducer must not hide the violation
+            log(f"note: minimiser crashed ({e!r}); reporting the un-minimised plan")
+            small, tests = plan, 0
         res2 = chk.execute(small)
         vio2 = res2.get("violation") or vio
         # a minimised plan may have slid into a known finding: then it is that finding
@@ -311,6 +315,19 @@ def main(argv=None):
                             f"{cid}_{vio2['class']}_{plan_digest(small)}.json")
         dump_plan(small, path)
         ok, out = replay_in_fresh_process(cid, path)
+        if not ok and small is not plan and chk.plan_size(small) != chk.plan_size(plan):
+            # the reduced plan fails only sometimes: keep the original one instead
+            log(f"note: minimised plan did not reproduce in a fresh process; trying the original")
+            os.remove(path)
+            big = dict(plan)
+            big["violation_found"] = vio
+            big["origin"] = dict(small["origin"], minimise_tests=0,
+                                 plan_size_after=chk.plan_size(plan))
+            vio2 = vio
+            path = os.path.join(os.path.dirname(path),
+                                f"{cid}_{vio['class']}_{plan_digest(big)}.json")
+            dump_plan(big, path)
+            ok, out = replay_in_fresh_process(cid, path)
         if not ok:
             log(f"HARNESS-ERROR violation {vio2['class']} did not reproduce from {path} in a fresh "
                 f"process:\n{out[-1500:]}")
